@@ -118,7 +118,7 @@ class Sugar:
 
 
 def sugar(rnd, d: int = 0, allow_bool: bool = True) -> Sugar:
-    kinds = ["env", "env", "envexpr", "subproc", "subproc", "search", "pstr", "help", "pfstr"]
+    kinds = ["env", "env", "envexpr", "subproc", "subproc", "search", "pstr", "help", "pfstr", "pconcat"]
     if allow_bool and d == 0:
         kinds += ["and", "or"]
     k = rnd.choice(kinds)
@@ -130,7 +130,7 @@ def sugar(rnd, d: int = 0, allow_bool: bool = True) -> Sugar:
             inner = sugar(rnd, d + 1, allow_bool=False)
             it, tt = inner.text, inner.trans
         else:
-            it = tt = rnd.choice(["x", "'a' + b", "f(1)", "None or 'W'", "a.b", "n[0]"])
+            it = tt = rnd.choice(["x", "'a' + b", "f(1)", "None or 'W'", "a.b", "n[0]", "'HOME'", '"EDITOR"', "'A' 'B'", "f'{a}_DIR'", "1", "b'x'", "r'\\d'", "(k)", "'P' if c else q", "u'U'"])
         sp = rnd.choice(["", "", " "])
         return Sugar("${" + sp + it + sp + "}", f"__xonsh__.env[str({tt})]", "atom", "Subscript", "${expr}")
     if k == "subproc":
@@ -168,6 +168,15 @@ def sugar(rnd, d: int = 0, allow_bool: bool = True) -> Sugar:
         body = rnd.choice(["/a/b", "~", "", "c d", "x.y", "\\\\d" if "r" in pre.lower() else "/t"])
         rest = pre.replace("p", "").replace("P", "")
         return Sugar(f"{pre}{q}{body}{q}", f"__xonsh__.path_literal({rest}{q}{body}{q})", "atom", "Call", "p-string")
+    if k == "pconcat":
+        # a path literal made of adjacent pieces (implicit concatenation): one p-prefixed piece, the others plain or f-strings
+        forms = [
+            ("p'/a' '/b'", "'/a' '/b'"), ('p"~" "/x" \'y\'', '"~" "/x" \'y\''), ("pr'\\d' 'e'", "r'\\d' 'e'"), ("p'a' f'{x}'", "'a' f'{x}'"), ("pf'{r}/etc/' f'{n}.toml'", "f'{r}/etc/' f'{n}.toml'"),
+            ("f'{x}/' pf'{y}'", "f'{x}/' f'{y}'"), ("'a' pf'{x}' 'c'", "'a' f'{x}' 'c'"), ("pf'{a}' 'b'", "f'{a}' 'b'"), ("pf'{a}' f'{b}' f'{c!r}'", "f'{a}' f'{b}' f'{c!r}'"), ("p'''m''' 'n'", "'''m''' 'n'"),
+            ("fp'{a}' \"q\" f\"{b}\"", "f'{a}' \"q\" f\"{b}\""), ("pf'{a}/' f'{b}/' 'c' f'{d}'", "f'{a}/' f'{b}/' 'c' f'{d}'"),
+        ]
+        t, tr = rnd.choice(forms)
+        return Sugar(t, f"__xonsh__.path_literal({tr})", "atom", "Call", "p-concat")
     if k == "pfstr":
         pre = rnd.choice(["pf", "fp", "Pf", "pF", "FP"])
         q = rnd.choice(["'", '"'])
@@ -462,10 +471,20 @@ def with_block(rnd, ind: str, depth=0) -> list[str]:
             lines.append(ind + rnd.choice(["# comment", "#c, (", "# 'quote"]))
         elif r < 0.78 and lines:
             lines.append(rnd.choice(["", "", ind, "   "]) if True else "")
-        elif r < 0.86:
+        elif r < 0.84:
             lines.append(ind + "v = [1,")
             lines.append(rnd.choice([ind + "     2,", "  2,", ind + "# c", ind + "  3,"]))
             lines.append(ind + "     4]")
+        elif r < 0.9:
+            # a triple-quoted string over 2..4 physical lines, first on its line or after other tokens; its
+            # interior and closing lines carry any indentation (the body is the physical lines, verbatim)
+            q = rnd.choice(['"""', "'''"])
+            opener = rnd.choice(["", "s = ", "f(", "r", "s = f"])
+            lines.append(ind + opener + q + rnd.choice(["doc", "", "t {x}", "a b"]))
+            for _ in range(rnd.randrange(0, 3)):
+                lines.append(rnd.choice([ind, "", ind + "  ", " "]) + rnd.choice(["mid", "x = 1", "# not a comment", "if y:"]))
+            closing = rnd.choice([ind, "", ind + "  "]) + rnd.choice(["string", "", "u"]) + q + (")" if opener == "f(" else "")
+            lines.append(closing + rnd.choice(["", "", "  # c", ".strip()"]))
         else:
             lines.append(ind + rnd.choice(["if y:", "for i in j:", "with q as t:", "def g():", "else:", "while k:"]))
             lines.extend(with_block(rnd, ind + rnd.choice(["    ", "  ", "\t"] if "\t" not in ind else ["\t"]), depth + 1))
